@@ -12,7 +12,6 @@ import (
 	"runtime"
 	"sort"
 	"strings"
-	"sync"
 	"time"
 	"unicode/utf8"
 
@@ -728,32 +727,43 @@ func registryMain(args []string) int {
 		steps []regStep
 		err   error
 	}
+	// the children run side by side; their recordings are merged in behaviour order as soon as they are there
+	// and dropped at once (a thorough run held 40 GB of raw recordings when they were kept until the end)
 	results := make([]result, len(sc.Behaviours))
-	var wg sync.WaitGroup
+	ready := make([]chan struct{}, len(sc.Behaviours))
+	for bi := range ready {
+		ready[bi] = make(chan struct{})
+	}
 	jobs := make(chan int)
+	window := make(chan struct{}, 4*sc.Par+64) // children may run ahead of the merge by this many behaviours
 	for w := 0; w < sc.Par; w++ {
-		wg.Add(1)
 		go func() {
-			defer wg.Done()
 			for bi := range jobs {
 				b := sc.Behaviours[bi]
 				steps, err := runRegChild(regJob{sc.GateLevels, b.Observe, sc.ProbeSets[b.Probes], b.Calls}, testArgs)
 				results[bi] = result{steps, err}
+				close(ready[bi])
 			}
 		}()
 	}
-	for bi := range sc.Behaviours {
-		jobs <- bi
-	}
-	close(jobs)
-	wg.Wait()
+	go func() {
+		for bi := range sc.Behaviours {
+			window <- struct{}{}
+			jobs <- bi
+		}
+		close(jobs)
+	}()
 
 	lvIn := &interner{ids: map[string]int{}}
 	prIn := &interner{ids: map[string]int{}}
 	root := &regNode{index: map[string]*regNode{}}
 	totalCalls, dead := 0, 0
 	nestRan := map[string]int{}
-	for bi, r := range results {
+	for bi := range results {
+		<-ready[bi]
+		<-window
+		r := results[bi]
+		results[bi] = result{}
 		if r.err != nil {
 			// a child that died is an infrastructure problem for this property (nothing in C17
 			// says "never crashes"): report and let the orchestrator decide
